@@ -180,8 +180,8 @@ Lemma safe_opt_calloc : forall (c : bool) d s a i cap sz, core d s ->
        (fun r s' => wf s' /\
           match r with
           | None => c = false /\ s' = s
-          | Some None => forall x, In x (ids s') <-> In x (ids s)
-          | Some (Some b) => ~ In b (ids s) /\ (forall x, In x (ids s') <-> x = b \/ In x (ids s))
+          | Some None => c = true /\ forall x, In x (ids s') <-> In x (ids s)
+          | Some (Some b) => c = true /\ ~ In b (ids s) /\ (forall x, In x (ids s') <-> x = b \/ In x (ids s))
           end).
 Proof.
   intros c d s a i cap sz HC Hc. pose proof HC as [Hw _]. destruct c.
@@ -190,8 +190,8 @@ Proof.
     intros u s0 Hs0; simpl in Hs0; subst s0.
     apply safe_bind. eapply safe_weaken; [apply safe_malloc; assumption|].
     intros [b|] s1 [Hw1 H1]; apply safe_ret; split; auto.
-    + destruct H1 as [Hb [Hnb [Hids _]]]. split; auto. intro x; rewrite Hids; simpl. split; intros [H|H]; auto.
-    + destruct H1 as [Hids _]. intro x; rewrite Hids; tauto.
+    + destruct H1 as [Hb [Hnb [Hids _]]]. split; auto. split; auto. intro x; rewrite Hids; simpl. split; intros [H|H]; auto.
+    + destruct H1 as [Hids _]. split; auto. intro x; rewrite Hids; tauto.
   - apply safe_ret; auto.
 Qed.
 
@@ -236,8 +236,7 @@ Proof.
     intros z s1 [Hw1 H1].
     destruct z as [[zb|]|].
     + (* z0 row allocated *)
-      destruct H1 as [Hzb Hi1].
-      assert (HC1z : core d s1 -> True) by auto.
+      destruct H1 as [Hctrue [Hzb Hi1]].
       apply safe_bind.
       assert (Hlive3 : forall a b, slot d a = Some b -> In b (ids s1)) by (intros a b Hb; apply Hi1; right; eapply slot_live; eauto).
       (* the data row *)
@@ -273,7 +272,7 @@ Proof.
               intros u s3 [Hw3 [_ Hi3]]. apply safe_ret; cbn [snd].
               eapply AInv_DInv. eapply (AInv_ids_eq d s s3 (S n)); eauto.
               intro x; rewrite Hi3, Hids2, Hi1. split; [intros [[Hx|Hx] Hne]; [contradiction | assumption] | intro Hx; split; auto; intro; subst; contradiction].
-           ++ simpl in H1. exfalso. clear - Hp Hw1. discriminate Hp || idtac. exact I.
+           ++ simpl in Hctrue; discriminate.
       * (* no data row (m_allocation = 0) *)
         apply safe_ret. eapply safe_weaken; [apply IH|intros r s' H; exact H].
         split; [|split; [|split; [|split; [|split]]]]; cbn [perf pal mal fal zcap dcap tbl].
@@ -287,13 +286,13 @@ Proof.
         -- unfold slot in *; cbn [tbl]. rewrite app_nth1 by (unfold S_DVEC; lia). assumption.
         -- intro Hp. unfold slot in *; cbn [tbl]. rewrite app_nth1 by (unfold S_ZVV; lia). apply Hzv; assumption.
     + (* calloc of the z0 row failed *)
-      apply safe_ret; cbn [snd]. eapply AInv_DInv. eapply AInv_ids_eq; eauto.
+      destruct H1 as [_ H1]. apply safe_ret; cbn [snd]. eapply AInv_DInv. eapply AInv_ids_eq; eauto.
     + (* no z0 row to allocate *)
       destruct H1 as [Hc Hs1]; subst s1.
       apply safe_bind. eapply safe_weaken; [apply safe_opt_calloc; [exact HC|]|].
       { intros _. split; [assumption | lia]. }
       intros dd s2 [Hw2 H2]. destruct dd as [[db|]|].
-      * destruct H2 as [Hndb Hi2].
+      * destruct H2 as [_ [Hndb Hi2]].
         eapply safe_weaken; [apply IH|intros r s' H; exact H].
         split; [|split; [|split; [|split; [|split]]]]; cbn [perf pal mal fal zcap dcap tbl].
         -- apply (core_append d s s2 None (Some db)); auto.
@@ -306,15 +305,217 @@ Proof.
         -- unfold slot in *; cbn [tbl]. rewrite app_nth1 by (unfold S_DVEC; lia). assumption.
         -- intro Hp. unfold slot in *; cbn [tbl]. rewrite app_nth1 by (unfold S_ZVV; lia). apply Hzv; assumption.
       * (* data row failed, nothing to release *)
+        destruct H2 as [_ H2].
         assert (HA2 : AInv d s2 (S n)) by (eapply AInv_ids_eq; eauto).
         destruct (perf d); [apply safe_bind; exists tt, s2; split; [reflexivity|] |]; apply safe_ret; cbn [snd]; eapply AInv_DInv; eauto.
       * destruct H2 as [_ Hs2]; subst s2.
         eapply safe_weaken; [apply IH|intros r s' H; exact H].
         split; [|split; [|split; [|split; [|split]]]]; cbn [perf pal mal fal zcap dcap tbl].
-        -- apply (core_append d s s None None); auto; simpl; [constructor | tauto | intro x; tauto].
+        -- apply (core_append d s s None None); auto; simpl; try apply NoDup_nil; try tauto; intro x; tauto.
         -- rewrite app_length; simpl; lia.
         -- lia.
         -- intro Hp; specialize (Hz Hp); lia.
         -- unfold slot in *; cbn [tbl]. rewrite app_nth1 by (unfold S_DVEC; lia). assumption.
         -- intro Hp. unfold slot in *; cbn [tbl]. rewrite app_nth1 by (unfold S_ZVV; lia). apply Hzv; assumption.
 Qed.
+
+Lemma DInv_rebuild : forall d s d' s',
+  DInv d s -> core d' s' -> same_shape d d' ->
+  (slot d S_ZVV <> None -> slot d' S_ZVV <> None) -> (slot d S_DVEC <> None -> slot d' S_DVEC <> None) -> DInv d' s'.
+Proof.
+  intros d s d' s' [HC [Hl [Hd [Hz [Hdv Hzv]]]]] HC' [E1 [E2 [E3 [E4 [E5 [E6 E7]]]]]] Ez Ed.
+  unfold DInv. rewrite E1, E4, E5, E6, E7.
+  split; [assumption | split; [assumption | split; [assumption | split; [assumption | split; auto]]]].
+Qed.
+
+(* changing only the recorded capacities of the row-pointer arrays *)
+Lemma DInv_caps : forall d s zc dc, DInv d s -> (fal d <= zc)%nat -> (fal d <= dc)%nat ->
+  DInv (mkD (perf d) (pal d) (mal d) (fal d) zc dc (tbl d)) s.
+Proof.
+  intros d s zc dc [HC [Hl [Hd [Hz [Hdv Hzv]]]]] H1 H2. unfold DInv, core, slot in *; simpl.
+  split; [assumption | split; [assumption | split; [lia | split; [intro Hp; lia | split; assumption]]]].
+Qed.
+
+Lemma safe_extend_f : forall d s new, DInv d s ->
+  safe (extend_f Fixed d new) s (fun r s' => DInv (snd r) s').
+Proof.
+  intros d s new HI; unfold extend_f.
+  destruct (Nat.leb_spec new (fal d)) as [Hle|Hgt]; [apply safe_ret; assumption|].
+  (* stage 1: the frequency vector *)
+  pose proof HI as [HC [Hl _]].
+  apply safe_bind. eapply safe_weaken; [apply safe_realloc_slot; [assumption | unfold S_FVEC; lia]|].
+  intros [ok1 d1] s1 [HC1 [Hsh1 [Hoth1 _]]]; cbn [fst snd] in *.
+  assert (HI1 : DInv d1 s1).
+  { eapply DInv_rebuild; eauto; rewrite Hoth1; auto; unfold S_FVEC, S_ZVV, S_DVEC; lia. }
+  destruct ok1; cbn [negb]; [|apply safe_ret; assumption].
+  assert (Hfal1 : fal d1 = fal d) by (destruct Hsh1 as [_ [_ [_ [H _]]]]; exact H).
+  clear HI HC Hl HC1 Hsh1 Hoth1.
+  (* stage 2: the z0 row-pointer array *)
+  pose proof HI1 as [HC1 [Hl1 [Hd1 [Hz1 [Hdv1 Hzv1]]]]].
+  apply safe_bind.
+  apply (safe_weaken _ _ _ (fun r s' => DInv (snd r) s' /\ fal (snd r) = fal d /\
+           (fst r = true -> perf (snd r) = true -> (new <= zcap (snd r))%nat /\ slot (snd r) S_ZVV <> None))).
+  { destruct (perf d1) eqn:Hp1.
+    - apply safe_bind. eapply safe_weaken; [apply safe_realloc_slot; [assumption | unfold S_ZVV; lia]|].
+      intros [ok d'] s' [HC' [Hsh' [Hoth' [Hok' Hfail']]]]; cbn [fst snd] in *.
+      apply safe_ret; cbn [fst snd]. destruct ok.
+      + assert (HI' : DInv d' s').
+        { eapply DInv_rebuild; [exact HI1 | assumption | assumption | intros _; apply Hok'; reflexivity|].
+          rewrite Hoth'; auto; unfold S_ZVV, S_DVEC; lia. }
+        pose proof Hsh' as [Q1 [Q2 [Q3 [Q4 [Q5 [Q6 Q7]]]]]].
+        split; [|split].
+        * apply (DInv_caps d' s' new (dcap d')) in HI'; [exact HI' | lia | lia].
+        * cbn [fal]. congruence.
+        * intros _ _. cbn [zcap]. split; [lia|]. unfold slot; cbn [tbl]. apply Hok'; reflexivity.
+      + rewrite (Hfail' eq_refl). split; [|split; [assumption | discriminate]].
+        destruct HI1 as [_ R]. split; [|exact R]. rewrite <- (Hfail' eq_refl); assumption.
+    - apply safe_ret; cbn [fst snd]. split; [assumption | split; [assumption|]]. intros _ Hp; congruence. }
+  intros [ok2 d2] s2 [HI2 [Hfal2 Hz2]]; cbn [fst snd] in *.
+  destruct ok2; cbn [negb]; [|apply safe_ret; assumption].
+  (* stage 3: the data row-pointer array *)
+  pose proof HI2 as [HC2 [Hl2 [Hd2 [Hzz2 [Hdv2 Hzv2]]]]].
+  apply safe_bind. eapply safe_weaken; [apply safe_realloc_slot; [assumption | unfold S_DVEC; lia]|].
+  intros [ok3 d3] s3 [HC3 [Hsh3 [Hoth3 [Hok3 Hfail3]]]]; cbn [fst snd] in *.
+  destruct ok3; cbn [negb].
+  - pose proof Hsh3 as [Q1 [Q2 [Q3 [Q4 [Q5 [Q6 Q7]]]]]].
+    apply safe_add_rows. unfold AInv; cbn [perf pal mal fal zcap dcap tbl].
+    split; [|split; [|split; [|split; [|split]]]].
+    + destruct HC3 as [A [B C]]. unfold core; simpl. auto.
+    + rewrite Q7, Q4. assumption.
+    + lia.
+    + intro Hp. rewrite Q1 in Hp. destruct (Hz2 eq_refl Hp) as [Hcap _]. rewrite Q5. lia.
+    + unfold slot; cbn [tbl]. apply Hok3; reflexivity.
+    + intro Hp. rewrite Q1 in Hp. destruct (Hz2 eq_refl Hp) as [_ Hs].
+      assert (Hz3 : slot d3 S_ZVV = slot d2 S_ZVV) by (apply Hoth3; unfold S_ZVV, S_DVEC; lia).
+      unfold slot in *; cbn [tbl]. rewrite Hz3. exact Hs.
+  - apply safe_ret; cbn [snd]. rewrite (Hfail3 eq_refl).
+    destruct HI2 as [_ R]. split; [|exact R]. rewrite <- (Hfail3 eq_refl); assumption.
+Qed.
+
+Lemma safe_resize : forall d s p m f, DInv d s ->
+  safe (resize Fixed d p m f) s (fun r s' => DInv (fst r) s').
+Proof.
+  intros d s p m f HI; unfold resize.
+  destruct ((p <? 0) || (m <? 0) || (f <? 0)); [apply safe_ret; assumption|].
+  apply safe_bind. eapply safe_weaken; [apply safe_extend_p; assumption|].
+  intros [ok1 d1] s1 HI1; cbn [snd] in HI1. destruct ok1; cbn [negb]; [|apply safe_ret; assumption].
+  apply safe_bind. eapply safe_weaken; [apply safe_extend_m; assumption|].
+  intros [ok2 d2] s2 HI2; cbn [snd] in HI2. destruct ok2; cbn [negb]; [|apply safe_ret; assumption].
+  apply safe_bind. eapply safe_weaken; [apply safe_extend_f; assumption|].
+  intros [ok3 d3] s3 HI3; cbn [snd] in HI3. destruct ok3; cbn [negb]; apply safe_ret; assumption.
+Qed.
+
+Lemma safe_drun : forall ops d s, DInv d s -> safe (drun Fixed d ops) s (fun r s' => DInv (fst r) s').
+Proof.
+  induction ops as [|[p m f] ops IH]; intros d s HI; simpl.
+  - apply safe_ret; assumption.
+  - apply safe_bind. eapply safe_weaken; [apply safe_resize; assumption|].
+    intros [d' o] s' HI'; simpl in HI'.
+    apply safe_bind. eapply safe_weaken; [apply IH; exact HI'|].
+    intros [d'' os] s'' HI''; simpl in *. apply safe_ret; assumption.
+Qed.
+
+Lemma somes_snoc : forall l o x, In x (somes (l ++ [o])) <-> In x (somes l) \/ In x (slotk o).
+Proof.
+  intros l o x. unfold somes. rewrite own_app, in_app_iff. simpl. rewrite app_nil_r. tauto.
+Qed.
+
+Lemma somes_rev : forall l x, In x (somes (rev l)) <-> In x (somes l).
+Proof.
+  induction l as [|o l IH]; simpl; intro x; [tauto|].
+  rewrite somes_snoc, IH. unfold somes; simpl. rewrite in_app_iff. tauto.
+Qed.
+
+Lemma NoDup_somes_rev : forall l, NoDup (somes l) -> NoDup (somes (rev l)).
+Proof.
+  induction l as [|o l IH]; simpl; intro H; auto.
+  unfold somes in H; simpl in H. destruct (NoDup_app_inv' _ _ H) as [Ho [Hl Hd]].
+  unfold somes. rewrite own_app. apply NoDup_app_intro'.
+  - apply IH; assumption.
+  - simpl. rewrite app_nil_r. assumption.
+  - intros x Hx Hin. simpl in Hin. rewrite app_nil_r in Hin. apply (somes_rev l x) in Hx. eapply Hd; eauto.
+Qed.
+
+Lemma safe_free_all : forall l s, wf s -> NoDup (somes l) -> (forall x, In x (somes l) -> In x (ids s)) ->
+  safe (free_all l) s (fun _ s' => wf s' /\ (forall x, In x (ids s') <-> In x (ids s) /\ ~ In x (somes l))).
+Proof.
+  induction l as [|o l IH]; intros s Hw Hnd Hin; simpl.
+  - apply safe_ret; split; auto. intro x; unfold somes; simpl; tauto.
+  - unfold somes in *; simpl in *. destruct (NoDup_app_inv' _ _ Hnd) as [Hc [Hk Hd]].
+    apply safe_bind. destruct o as [p|]; simpl in *.
+    + eapply safe_weaken; [apply safe_free; [assumption | apply Hin; auto]|].
+      intros u s1 [Hw1 [_ Hi1]].
+      eapply safe_weaken; [apply IH; [assumption | assumption |]|].
+      * intros x Hx; apply Hi1; split; [apply Hin; auto | intro; subst; eapply Hd; eauto; simpl; auto].
+      * intros u2 s2 [Hw2 Hi2]; split; auto. intro x; rewrite Hi2, Hi1; simpl. intuition.
+    + exists tt, s; split; [reflexivity|].
+      eapply safe_weaken; [apply IH; auto|]. intros u2 s2 [Hw2 Hi2]; split; auto.
+Qed.
+
+Lemma safe_dfree : forall d s, DInv d s -> safe (dfree d) s (fun _ s' => live s' = []).
+Proof.
+  intros d s [[Hw [Hnd Hiff]] _]; unfold dfree.
+  eapply safe_weaken; [apply safe_free_all; [assumption | apply NoDup_somes_rev; assumption |]|].
+  - intros x Hx. apply Hiff. apply somes_rev; assumption.
+  - intros u s1 [Hw1 Hi1]. apply ids_nil_live_nil. intros x Hx. apply Hi1 in Hx. destruct Hx as [Hx Hno].
+    apply Hno. apply somes_rev. apply Hiff; assumption.
+Qed.
+
+Lemma dhistory_safe : forall pf ops k, safe (dhistory Fixed pf ops) (start k) (fun _ s' => live s' = []).
+Proof.
+  intros pf ops k; unfold dhistory, dnew.
+  apply safe_bind. apply safe_bind.
+  eapply safe_weaken; [apply safe_malloc; apply wf_start|].
+  intros [b|] s1 [Hw1 H1].
+  - destruct H1 as [Hb [Hnb [Hids Hf]]]. apply safe_ret.
+    assert (HI : DInv (mkD pf 0 0 0 0 0 [Some b; None; None; None; None]) s1).
+    { unfold DInv, core, slot, somes; simpl. split; [split; [assumption | split; [repeat constructor; simpl; tauto|]]|].
+      - intro x; rewrite Hids; simpl; tauto.
+      - split; [reflexivity | split; [lia | split; [intros; lia | split; intros; lia]]]. }
+    apply safe_bind. eapply safe_weaken; [apply safe_drun; exact HI|].
+    intros [d' os] s2 HI2; simpl in HI2.
+    apply safe_bind. eapply safe_weaken; [apply safe_dfree; exact HI2|].
+    intros u s3 H3. apply safe_ret; assumption.
+  - destruct H1 as [Hids _]. apply safe_ret. apply safe_ret.
+    apply ids_nil_live_nil. rewrite Hids; simpl; tauto.
+Qed.
+
+Theorem vdata_no_fault_lemma : forall pf ops k f, dhistory Fixed pf ops (start k) <> Fault f.
+Proof.
+  intros pf ops k f H. destruct (dhistory_safe pf ops k) as [a [s' [He _]]]. rewrite He in H; discriminate.
+Qed.
+
+Theorem vdata_no_leak_lemma : forall pf ops k os s',
+  dhistory Fixed pf ops (start k) = Ok (os, s') -> live s' = [].
+Proof.
+  intros pf ops k os s' H. destruct (dhistory_safe pf ops k) as [a [s2 [He Hl]]]. rewrite He in H; inversion H; subst; assumption.
+Qed.
+
+Theorem vdata_fault_clean_lemma : forall d s p m f, DInv d s ->
+  exists d' o s', resize Fixed d p m f s = Ok ((d', o), s') /\ DInv d' s'.
+Proof.
+  intros d s p m f HI. destruct (safe_resize d s p m f HI) as [[d' o] [s' [He HI']]]. exists d', o, s'; auto.
+Qed.
+
+Lemma vdata_fault_history_lemma : forall pf ops k os s',
+  dhistory Fixed pf ops (start (Some k)) = Ok (os, s') -> live s' = [].
+Proof. intros pf ops k; exact (vdata_no_leak_lemma pf ops (Some k)). Qed.
+
+Lemma vdata_fault_history_no_fault_lemma : forall pf ops k f, dhistory Fixed pf ops (start (Some k)) <> Fault f.
+Proof. intros pf ops k; exact (vdata_no_fault_lemma pf ops (Some k)). Qed.
+
+Example DInv_satisfiable : exists d s, DInv d s /\ fal d = 3%nat /\ pal d = 2%nat /\ perf d = true /\ length (live s) = 10%nat.
+Proof.
+  assert (HI : DInv (mkD true 0 0 0 0 0 [Some 0%nat; None; None; None; None]) (mkA None [(0%nat, 120)] 1)).
+  { unfold DInv, core, slot, somes, wf, ids; simpl.
+    split; [split; [split; [repeat constructor; simpl; tauto | intros x [Hx|[]]; subst; lia] | split; [repeat constructor; simpl; tauto | intro x; tauto]]|].
+    split; [reflexivity | split; [lia | split; [intros; lia | split; intros; lia]]]. }
+  destruct (safe_drun [DResize 2 4 3] _ _ HI) as [[d' os] [s' [He HI']]].
+  vm_compute in He. inversion He; subst. eexists; eexists; split; [exact HI'|]. vm_compute; auto.
+Qed.
+
+(* D7 as first read: per-frequency z0, p_allocation = 0: the row pointers of new frequencies are
+   garbage, the next growth of the port allocation passes them to realloc *)
+Theorem vdata_extend_f_orig_refuted_lemma :
+  exists ops f, dhistory Orig true ops (start None) = Fault f.
+Proof. exists [DResize 0 0 2; DResize 2 0 2], UseAfterFree; vm_compute; reflexivity. Qed.
